@@ -66,6 +66,7 @@ type exec struct {
 	roundMemo    map[*smt.Term]*smt.Term
 	varsMemo     map[*smt.Term]map[*smt.Term]struct{}
 	noSlice      bool
+	lenVars      map[*smt.Term]bool
 	floatErrVars int
 
 	known    []knownRegion
@@ -98,15 +99,15 @@ type exec struct {
 	env         map[string]interface{} // per-run stub state (zip recorder, decoders, ...)
 
 	// speculative branch merging (merge.go)
-	spec      int
-	specStack []*specState
+	spec       int
+	specStack  []*specState
 	freshCells map[*value]bool
-	freshMaps map[*omap]bool
-	noMerge   bool
-	noMergeAt map[*ssa.If]bool
-	lastAbort string
-	merges    int
-	mergeFail map[string]int
+	freshMaps  map[*omap]bool
+	noMerge    bool
+	noMergeAt  map[*ssa.If]bool
+	lastAbort  string
+	merges     int
+	mergeFail  map[string]int
 }
 
 type knownRegion struct {
@@ -117,7 +118,7 @@ type knownRegion struct {
 // Stats are accumulated per worker and merged.
 type Stats struct {
 	Paths, Decisions, Obligations, Discharged, Violations, KnownHits int
-	Inconclusive, Abandoned, UnwindFailures, InfeasiblePaths       int
+	Inconclusive, Abandoned, UnwindFailures, InfeasiblePaths         int
 	AbandonReasons                                                   map[string]int
 	InconclusiveClauses                                              map[string]int
 }
